@@ -302,6 +302,52 @@ func c10Specs(thorough bool) []*gen.ProgSpec {
 			}
 		})
 	}
+	// track order and three tracks: audio (other timescale) BEFORE the video reference track, and video, audio (other
+	// timescale), second audio/video track in the reference timescale: the end time is converted per track
+	for nv := 2; nv <= 3; nv++ {
+		for na := 2; na <= 3; na++ {
+			for dv := 1; dv <= 2; dv++ {
+				for _, ats := range []uint32{600, 44100 / 100} {
+					vd, ad, td := make([]int64, nv), make([]int64, na), make([]int64, nv)
+					for i := range vd {
+						vd[i] = int64(dv + i%2)
+						td[i] = vd[i]
+					}
+					for i := range ad {
+						ad[i] = int64(1 + (i+dv)%2)
+					}
+					for _, perSample := range []bool{false, true} {
+						chv, cha := []int{nv}, []int{na}
+						if perSample {
+							chv, cha = ones(nv), ones(na)
+						}
+						for mi, mask := range []uint{1<<uint(nv) - 1, 1 | 1<<uint(nv-1)} {
+							v := mkTrack("video", 1000, nv, chv, vd, dv%4, mask, true)
+							a := mkTrack("audio", ats, na, cha, ad, mi, 0, false)
+							a.Edts = false
+							t3 := mkTrack("audio", 1000, nv, chv, td, 0, 0, false)
+							t3.Edts = false
+							order2 := func(first, second []int, x, y int) []int {
+								var o []int
+								for range first {
+									o = append(o, x)
+								}
+								for range second {
+									o = append(o, y)
+								}
+								return o
+							}
+							// audio first, then video
+							specs = append(specs, &gen.ProgSpec{Tracks: []gen.ProgTrack{a, v}, ChunkOrder: order2(cha, chv, 0, 1)})
+							// video, audio, third track
+							o3 := append(order2(chv, cha, 0, 1), order2(chv, nil, 2, 2)...)
+							specs = append(specs, &gen.ProgSpec{Tracks: []gen.ProgTrack{v, a, t3}, ChunkOrder: o3})
+						}
+					}
+				}
+			}
+		}
+	}
 	// empty samples (size 0; a chunk may then hold no bytes at all): every size tuple over {0,1,2} with at least one zero,
 	// one sample per chunk and all samples in one chunk
 	for n := 2; n <= 4; n++ {
@@ -466,7 +512,7 @@ func runC10(c *vf.Ctx) {
 	} else {
 		c.SetBudget(4 * 60 * 1e9)
 	}
-	c.Rule = "generated progressive files: single video track with stss (all chunkings x every sync subset containing sample 1 x duration tuples over {1,2,3} x ctts/sdtp/co64/edts/mdat-first/64-bit-mdat-header variants), single audio / video track without stss (also with a track header duration of half the media duration and of zero), video+audio (all chunkings of both x every merge order of the chunks in mdat x sync subsets; audio timescale 1000 and 600) ; single video tracks with empty samples (every size tuple over {0,1,2} with a zero, three chunkings); single video (with stss) / audio tracks of 3-4 samples with durations over {2^31, 2^32-1, 1} ticks at timescales 1000 / 90000 / 10^7 (decode times beyond 2^32 ticks inside one stts run); each file is cropped in-process by the tool's own cropMP4 (overlay-injected driver) at EVERY millisecond 1..total+2 (files longer than 5 s: at the boundary set of milliseconds around every sample start of every track, and 1, total+1, total+2). A case = (file, ms). Only successful crops are judged; tool errors/panics are tallied."
+	c.Rule = "generated progressive files: single video track with stss (all chunkings x every sync subset containing sample 1 x duration tuples over {1,2,3} x ctts/sdtp/co64/edts/mdat-first/64-bit-mdat-header variants), single audio / video track without stss (also with a track header duration of half the media duration and of zero), video+audio (all chunkings of both x every merge order of the chunks in mdat x sync subsets; audio timescale 1000 and 600) ; audio (timescale 600 / 441) before the video track, and three tracks (video, audio in another timescale, a third track in the reference timescale); single video tracks with empty samples (every size tuple over {0,1,2} with a zero, three chunkings); single video (with stss) / audio tracks of 3-4 samples with durations over {2^31, 2^32-1, 1} ticks at timescales 1000 / 90000 / 10^7 (decode times beyond 2^32 ticks inside one stts run); each file is cropped in-process by the tool's own cropMP4 (overlay-injected driver) at EVERY millisecond 1..total+2 (files longer than 5 s: at the boundary set of milliseconds around every sample start of every track, and 1, total+1, total+2). A case = (file, ms). Only successful crops are judged; tool errors/panics are tallied."
 	c.Bound = "single track N <= 5 (quick) / 7 (thorough) samples; video+audio N <= 3 / 4 each, audio timescale 1000 and 600 (reference track always 1000)"
 	specs := c10Specs(thorough)
 	c.Set("files", len(specs))
